@@ -77,6 +77,30 @@ def genMixedSet (d : Nat) : Gen Val := do
   let sh ← shuffle extra
   pure (setVal (ms ++ sh.take (k + 2)))
 
+/-! ## big collections: frozen keeps up to about eight items in insertion order, so the enumeration order differs
+between processes only from roughly nine members upward -/
+
+def bigPool : List Val :=
+  let n (i : Int) := ofLitVal (.num i)
+  (List.range 9).map (fun i => n (Int.ofNat i - 2)) ++
+  (List.range 6).map (fun i => ofLitVal (.str 0 [97 + i])) ++
+  [ofLitVal (.str 1 [97]), ofLitVal (.str (-1) [98, 99]), ofLitVal (.str 0 [97, 98])] ++
+  (List.range 4).map (fun i => ofLitVal (.tup [("a", .num (Int.ofNat i))])) ++
+  (List.range 3).map (fun i => ofLitVal (.tup [("b", .num (Int.ofNat i))])) ++
+  (List.range 3).map (fun i => ofLitVal (.arr 0 [some (.num (Int.ofNat i))])) ++
+  (List.range 3).map (fun i => ofLitVal (.set [.num (Int.ofNat i)])) ++
+  [ofLitVal (.arr 1 [some (.num 0)]), ofLitVal (.tup []), ofLitVal (.set []), ofLitVal .tt,
+   ofLitVal (.dict [(.num 1, .num 2)]), ofLitVal (.dict [(.str 0 [97], .num 1)]), ofLitVal (.bytes 0 [1, 2]),
+   ofLitVal (.bytes 1 [1]), negVal (ofLitVal (.set [.num 1])), negVal (ofLitVal (.tup [("a", .num 1)])),
+   ofLitVal (.tup [("a", .num 1), ("b", .num 2)]), ofLitVal (.set [.num 1, .str 0 [97]]),
+   ofLitVal (.rel ["a", "b"] [[.num 1, .num 2]])]
+
+/-- a set with 12–18 members of mixed kinds -/
+def genBigSet : Gen Val := do
+  let n ← rand 7
+  let sh ← shuffle bigPool
+  pure (setVal (sh.take (n + 12)))
+
 def genFn : Gen Fn := do
   let r ← rand 8
   match r with
@@ -153,30 +177,6 @@ def genBigLit : Gen Ex := do
     let rows ← genList (m + 12) (genList 3 (genVal 1))
     let ns := ["c", "a", "b"]
     pure (litEx (setVal (rows.map (fun row => tupVal (ns.zip row)))))
-
-/-! ## big collections: frozen keeps up to about eight items in insertion order, so the enumeration order differs
-between processes only from roughly nine members upward -/
-
-def bigPool : List Val :=
-  let n (i : Int) := ofLitVal (.num i)
-  (List.range 9).map (fun i => n (Int.ofNat i - 2)) ++
-  (List.range 6).map (fun i => ofLitVal (.str 0 [97 + i])) ++
-  [ofLitVal (.str 1 [97]), ofLitVal (.str (-1) [98, 99]), ofLitVal (.str 0 [97, 98])] ++
-  (List.range 4).map (fun i => ofLitVal (.tup [("a", .num (Int.ofNat i))])) ++
-  (List.range 3).map (fun i => ofLitVal (.tup [("b", .num (Int.ofNat i))])) ++
-  (List.range 3).map (fun i => ofLitVal (.arr 0 [some (.num (Int.ofNat i))])) ++
-  (List.range 3).map (fun i => ofLitVal (.set [.num (Int.ofNat i)])) ++
-  [ofLitVal (.arr 1 [some (.num 0)]), ofLitVal (.tup []), ofLitVal (.set []), ofLitVal .tt,
-   ofLitVal (.dict [(.num 1, .num 2)]), ofLitVal (.dict [(.str 0 [97], .num 1)]), ofLitVal (.bytes 0 [1, 2]),
-   ofLitVal (.bytes 1 [1]), negVal (ofLitVal (.set [.num 1])), negVal (ofLitVal (.tup [("a", .num 1)])),
-   ofLitVal (.tup [("a", .num 1), ("b", .num 2)]), ofLitVal (.set [.num 1, .str 0 [97]]),
-   ofLitVal (.rel ["a", "b"] [[.num 1, .num 2]])]
-
-/-- a set with 12–18 members of mixed kinds -/
-def genBigSet : Gen Val := do
-  let n ← rand 7
-  let sh ← shuffle bigPool
-  pure (setVal (sh.take (n + 12)))
 
 /-- numbers and plain strings only (they can be written as items of a set pattern), 12–16 of them -/
 def numStrPool : List Val :=
